@@ -25,6 +25,9 @@ OPEN=[
  ("K-C06-tail-id-drift",["C04","C06","C15"],
   "the durable cursor of a consumer in the writer's tail names the block by allocator id, recovery re-derives ids by position: a block handed out but never written (rejected first append on a topic, empty batch opening a topic) that ends up last in its file shifts later ids by one, the persisted tail block is not found after restart and the StrictlyAtOnce consumer starts over (redelivery, no loss). Repair needs block ids (or a position) in the on-disk format: recorded, not repaired.",
   "append(a,half) x2; append(a,128); append on a 300-byte topic name -> Err; append(a, one byte over a block); batch_read(a,MAX,ckpt); restart -> count(a) = 4, everything redelivered"),
+ ("K-C08-torn-batch",["C08"],
+  "a batch append writes its entries with independent writes (one io_uring write per entry, or sequential block writes on the mmap path) and has no commit record; recovery accepts every checksum-valid entry it finds, so a crash inside the batch call leaves a non-empty strict subset of the batch readable. The repository's own design note claims atomicity for in-process readers only. Repair needs a commit marker in the on-disk format: recorded, not repaired.",
+  "batch(a,[half,half,127]) with the process dying after the first of the three writes landed -> the topic holds 1 of the 3 entries"),
  ("K-C13-block-id-collision",["C13"],
   "two instances in one process number their blocks from 1 and share the process-global block tracker (first registration of an id wins): consumption by one instance is credited to the other's file, which the reclaimer then deletes with unconsumed entries in it. Repair needs the tracker keyed by (instance, block id) at ~15 call sites: recorded, not repaired.",
   "open(0,k0); open(1,k1); instance 0: 5 block-filling appends; instance 1: 5 block-filling appends, batch_read(MAX), append; reclaim tick; restart -> instance 0 has 1 of its 5 entries left"),
